@@ -19,18 +19,21 @@ build() {
   [ -f "$HERE/harness/go.sum" ] || cp "$REPO/go.sum" "$HERE/harness/go.sum"
   local modflag=""
   if [ "$REPO" != "/repo" ]; then
-    sed "s#=> /repo#=> $REPO#" "$HERE/harness/go.mod" > "$BUILD/alt.mod"
-    cp "$HERE/harness/go.sum" "$BUILD/alt.sum"
-    modflag="-modfile=$BUILD/alt.mod"
-    BIN="$BUILD/simcheck.$(echo "$REPO" | md5sum | cut -c1-8)"
+    local tag="$(echo "$REPO" | md5sum | cut -c1-8)"
+    sed "s#=> /repo#=> $REPO#" "$HERE/harness/go.mod" > "$BUILD/alt.$tag.mod"
+    cp "$HERE/harness/go.sum" "$BUILD/alt.$tag.sum"
+    modflag="-modfile=$BUILD/alt.$tag.mod"
+    BIN="$BUILD/simcheck.$tag"
   fi
-  (cd "$HERE/harness" && go build $modflag -tags verif -o "$BIN" ./cmd/simcheck) >"$BUILD/build.log" 2>&1
+  local log="$BUILD/build.$$.log"
+  (cd "$HERE/harness" && go build $modflag -tags verif -o "$BIN" ./cmd/simcheck) >"$log" 2>&1
   local rc=$?
   if [ $rc -ne 0 ]; then
     echo "HARNESS-FAULT: build failed (see below)" >&2
-    cat "$BUILD/build.log" >&2
+    cat "$log" >&2; rm -f "$log"
     exit 2
   fi
+  rm -f "$log"
 }
 
 case "${1:-}" in
